@@ -363,9 +363,16 @@ func runC10(c *Ctx) {
 				}
 				ok := l.Err == nil && len(l.Coll) == len(r.Coll)
 				for i := 0; ok && i < len(l.Coll); i++ {
+					// (items reached through an Any-packed contained resource are unpacked afresh by
+					// every evaluation: compare those by content)
 					ok = sameItem(l.Coll[i], r.Coll[i])
+					if !ok {
+						pa, ok1 := l.Coll[i].(proto.Message)
+						pb, ok2 := r.Coll[i].(proto.Message)
+						ok = ok1 && ok2 && proto.Equal(pa, pb)
+					}
 				}
-				c.Law(ok, "C10/extension-where", "extension(u) = extension.where(url = u)", rt+base+" "+u, fmt.Sprintf("%d vs %d", len(l.Coll), len(r.Coll)))
+				c.Law(ok, "C10/extension-where", "extension(u) = extension.where(url = u)", rt+base+" "+u, fmt.Sprintf("%d vs %d: %s vs %s", len(l.Coll), len(r.Coll), canonOutcome(l, nil), canonOutcome(r, nil)))
 			}
 		}
 	}
